@@ -22,7 +22,11 @@ CFG = {
             "read complete?, client gone, saw EOF, close_returned(result), waiter released(result), "
             "connect-after-close result), judged in Coq: the property clauses evaluated on the log (spec) and "
             "acceptance by the shutdown model with the unobservable server-internal steps placed. Non-trivial: "
-            "at least one connection or waiter; distinct by scenario script.",
+            "at least one connection or waiter; distinct by scenario script. Transports: transport:h1 (raw TCP, all "
+            "scripts), and - for the scripts that need no raw request bytes (idle, keep-alive, in flight, gone, "
+            "late) - transport:h2 (cleartext HTTP/2, prior knowledge, one connection per request) and "
+            "transport:tls (HTTP/1.1 over TLS): per mode 11 fixed scenarios each, quick 3 mixed each (4-16 "
+            "connections), thorough 47 mixed each (up to 64).",
     "trusted_base": COMMON_TB + [
         "hyper-util 0.1.10 GracefulShutdown (library contract, guard of step ConnsDrained): shutdown() returns "
         "once every watched connection future has completed; a signalled HTTP/1 connection finishes the request "
@@ -44,7 +48,8 @@ CFG = {
         "PARTIAL: trace inclusion is checked on sampled executions only; the moments of close() relative to the "
         "connections' states are scripted and seeded, schedules are chosen by tokio and the kernel",
         "the model cannot exhibit: tokio's scheduling order, TCP teardown timing, hyper's HTTP/1 state machine "
-        "(abstracted to Idle/InRequest/Responding/Closed), the 30 s header-read timeout, HTTP/2, TLS; "
+        "(abstracted to Idle/InRequest/Responding/Closed), the 30 s header-read timeout, hyper's HTTP/2 state "
+        "machine (GOAWAY, streams) and TLS records - those transports are sampled, not modelled; "
         "GracefulShutdown, waitgroup and Shared are contracts, not models",
         "shutdown is requested through HttpServer::close().await, or (via:drop scenarios) by dropping the "
         "HttpServer (CloseHandle::drop) while awaiting a wait_for_shutdown() future taken beforehand; that "
@@ -66,7 +71,8 @@ CFG = {
                 "checked against the property clauses, both evaluated by Coq; the port is probed after close().",
         "design_ref": "DESIGN.md §1.4, §6 C17",
         "note": "Partial: moments of close() are sampled. The model cannot exhibit tokio's scheduler, TCP teardown "
-                "timing, hyper's HTTP/1 state machine or header-read timeout, HTTP/2, TLS. hyper-util "
+                "timing, hyper's HTTP/1 state machine or header-read timeout, its HTTP/2 state machine, TLS records "
+                "(shutdowns are sampled over HTTP/1.1, cleartext HTTP/2 and HTTP/1.1 over TLS). hyper-util "
                 "GracefulShutdown, waitgroup and futures::Shared are contracts encoded in transition guards "
                 "(trusted_base). The model follows the code's order: listener dropped when the server task ends, "
                 "before the waitgroup wait.",
